@@ -225,6 +225,13 @@ def struct_ops(rm, names, with_new_space=True, with_cached=True):
             ops.append({"op": "set_ref", "sp": s, "n": "y", "v": s + "2"})
         else:
             ops.append({"op": "set_ref", "sp": s, "n": "y", "v": s})
+            try:
+                inherited = rm.refs_of(s).get("y")
+            except NoLinearisation:
+                inherited = None
+            if inherited is not None:
+                # override a derived reference with the very value it already carries: it becomes defined
+                ops.append({"op": "set_ref", "sp": s, "n": "y", "v": inherited[1]})
         for t in existing:
             if t == s:
                 continue
